@@ -3,10 +3,22 @@ package c11
 
 import (
 	"fmt"
+	"sort"
 	"time"
 
 	"go.nanomsg.org/mangos/v3"
+	"go.nanomsg.org/mangos/v3/vh/c02"
+	"go.nanomsg.org/mangos/v3/vh/c03"
 	"go.nanomsg.org/mangos/v3/vh/c04"
+	"go.nanomsg.org/mangos/v3/vh/c05"
+	"go.nanomsg.org/mangos/v3/vh/c06"
+	"go.nanomsg.org/mangos/v3/vh/c07"
+	"go.nanomsg.org/mangos/v3/vh/c08"
+	"go.nanomsg.org/mangos/v3/vh/c09"
+	"go.nanomsg.org/mangos/v3/vh/c10"
+	"go.nanomsg.org/mangos/v3/vh/c13"
+	"go.nanomsg.org/mangos/v3/vh/c14"
+	"go.nanomsg.org/mangos/v3/vh/c16"
 	"go.nanomsg.org/mangos/v3/vh/kinds"
 	"go.nanomsg.org/mangos/v3/vh/kit"
 	"go.nanomsg.org/mangos/v3/vh/vt"
@@ -25,6 +37,24 @@ func init() {
 		var out []*vexplore.Scenario
 		out = append(out, &vexplore.Scenario{Name: "req-slow-peer-hist", Mode: "hist", Reset: kit.ResetGlobals, Cfg: vsched.Config{Race: true},
 			Body: func() { c04.SlowPeerHist(map[bool]int{false: 5, true: 6}[full]) }})
+		// data-race freedom of the multi-socket / device / fan-out / close scenarios of the other
+		// properties: the same bodies, race-instrumented build, happens-before detector on
+		drf := map[string]func(){}
+		for _, m := range []map[string]func(){c02.RaceBodies, c03.RaceBodies, c05.RaceBodies, c06.RaceBodies, c07.RaceBodies, c08.RaceBodies(),
+			c09.RaceBodies, c10.RaceBodies, c13.RaceBodies, c14.RaceBodies, c16.RaceBodies} {
+			for n, f := range m {
+				drf[n] = f
+			}
+		}
+		var names []string
+		for n := range drf {
+			names = append(names, n)
+		}
+		sort.Strings(names)
+		for _, n := range names {
+			f := drf[n]
+			out = append(out, &vexplore.Scenario{Name: "drf:" + n, Mode: "sched", Bound: b, Reset: kit.ResetGlobals, Cfg: vsched.Config{Race: true}, Body: f})
+		}
 		for _, k := range kinds.All {
 			k := k
 			out = append(out, &vexplore.Scenario{Name: "two-threads:" + k.Name, Mode: "sched", Bound: b, Reset: kit.ResetGlobals,
